@@ -902,3 +902,77 @@ class DescriptionReportBody(FnCheck):
         ex.oblige(st, 'the_filled_report_is_serialised_last', z3.And(
             z3.BoolVal(names.count('as_etree_node') == 1 and names[-1] == 'as_etree_node'), log[-1][1] == rep)
             if rep is not None and names else z3.BoolVal(False))
+
+
+# ---------------------------------------------------------------------------------------------------------------
+# periodic reports: the retained entries are taken out of the store and sent; writers append concurrently
+PR = 'sdc11073.provider.periodicreports'
+
+
+@register
+class PeriodicSendLoopAtomicTake(ScanCheck):
+    id = 'C04.periodic_send_loop_takes_entries_atomically'
+    prop = 'C04'
+    doc = ('_simple_periodic_reports_send_loop (syntactic, exhaustive over the statements of the function): every '
+           'statement that removes entries from a periodic store (del x[:], clear, pop, remove, slice assignment) lies '
+           'inside a `with self._periodic_reports_lock:` block that also contains the snapshot `tmp = x[:]` of the same '
+           'store before it - so snapshot and clearing are one critical section and an entry appended by a writer '
+           '(C03.periodic_store, under the same lock) during the send is never wiped unsent - and the snapshot is what '
+           'the sender is called with, outside the lock')
+    trusted = ('threading.Lock mutual exclusion',)
+
+    def scan(self, repo):
+        import ast as _a
+        mod, cdef, fn = repo.find(f'{PR}:PeriodicReportsHandler._simple_periodic_reports_send_loop')
+        out = []
+
+        def is_lock_with(n):
+            return isinstance(n, _a.With) and any(_a.unparse(i.context_expr).endswith('._periodic_reports_lock') for i in n.items)
+        locked = [n for n in _a.walk(fn) if is_lock_with(n)]
+        inside = {id(x) for w in locked for x in _a.walk(w)}
+
+        def removal_target(n):
+            if isinstance(n, _a.Delete):
+                for t in n.targets:
+                    if isinstance(t, _a.Subscript):
+                        return _a.unparse(t.value)
+            if isinstance(n, _a.Assign) and any(isinstance(t, _a.Subscript) and isinstance(t.slice, _a.Slice) for t in n.targets):
+                return _a.unparse([t for t in n.targets if isinstance(t, _a.Subscript)][0].value)
+            if isinstance(n, _a.Expr) and isinstance(n.value, _a.Call) and isinstance(n.value.func, _a.Attribute) \
+                    and n.value.func.attr in ('clear', 'pop', 'remove', 'popleft'):
+                return _a.unparse(n.value.func.value)
+            return None
+        k = 0
+        for n in _a.walk(fn):
+            tgt = removal_target(n)
+            if tgt is None:
+                continue
+            k += 1
+            ok = id(n) in inside
+            snap = False
+            if ok:
+                w = [w for w in locked if id(n) in {id(x) for x in _a.walk(w)}][0]
+                for m in _a.walk(w):
+                    if isinstance(m, _a.Assign) and isinstance(m.value, _a.Subscript) and isinstance(m.value.slice, _a.Slice) \
+                            and _a.unparse(m.value.value) == tgt and m.lineno < n.lineno:
+                        snap = True
+            out.append((f'removal.{k}.inside_the_lock_after_its_snapshot', ok and snap,
+                        {'line': n.lineno, 'store': tgt, 'inside_lock': ok, 'snapshot_before_in_same_section': snap}))
+        out.append(('store_is_emptied_somewhere', k >= 1, {'removals': k}))
+        # the sender gets the snapshot and runs outside the lock
+        sends = [n for n in _a.walk(fn) if isinstance(n, _a.Call) and isinstance(n.func, _a.Name) and n.func.id == 'send_func']
+        out.append(('sender_called_with_the_snapshot_outside_the_lock',
+                    len(sends) == 1 and id(sends[0]) not in inside and sends[0].args and _a.unparse(sends[0].args[0]) == 'tmp',
+                    {'sends': len(sends)}))
+        return out
+
+
+# Reports carry the version counters of the commit: the copy of a parent descriptor that goes into the description
+# modification report is taken AFTER its version was incremented (under contract in C02, re-checked here).
+from contracts import C02 as _c02   # noqa: E402
+
+
+@register
+class ParentReportedWithCommittedVersion(_c02.IncrementParentVersion):
+    id = 'C04.parent_descriptor_reported_with_committed_version'
+    prop = 'C04'
